@@ -31,8 +31,8 @@ func writeEvidenceFail(prop, tier string, wall time.Duration, why string) {
 		"coverage": map[string]interface{}{"explanation": "run was INCONCLUSIVE before any exploration: " + why, "obligations": 0, "discharged": 0},
 		"wall_s":   wall.Seconds(), "violations": 0,
 	}
-	os.MkdirAll(filepath.Join(verifDir, "evidence"), 0755)
-	writeJSON(filepath.Join(verifDir, "evidence", prop+".json"), ev)
+	os.MkdirAll(filepath.Join(outDir(), "evidence"), 0755)
+	writeJSON(filepath.Join(outDir(), "evidence", prop+".json"), ev)
 }
 
 func writeEvidence(prop, tier string, pc *PropCfg, hs []HarnessCfg, results []*Result, prog *ssa.Program, wall time.Duration, nViol int, cross map[string]int, exit int) {
@@ -117,8 +117,8 @@ func writeEvidence(prop, tier string, pc *PropCfg, hs []HarnessCfg, results []*R
 		"property_id": prop, "tier": tier, "seed": seedFromEnv(), "level": "other",
 		"coverage": cov, "assumptions": pc.Assumptions, "wall_s": wall.Seconds(), "violations": nViol,
 	}
-	os.MkdirAll(filepath.Join(verifDir, "evidence"), 0755)
-	writeJSON(filepath.Join(verifDir, "evidence", prop+".json"), ev)
+	os.MkdirAll(filepath.Join(outDir(), "evidence"), 0755)
+	writeJSON(filepath.Join(outDir(), "evidence", prop+".json"), ev)
 }
 
 func compactModel(m map[string]string) map[string]string {
@@ -265,4 +265,14 @@ func doReplayFile(path string) int {
 	}
 	fmt.Println("not reproduced")
 	return 0
+}
+
+// outDir: where evidence and replay files go - /verif itself, or $VERIF_OUT for runs against
+// modified trees (seeded changes, negative controls) whose results must not replace the evidence
+// of the unchanged tree.
+func outDir() string {
+	if d := os.Getenv("VERIF_OUT"); d != "" {
+		return d
+	}
+	return verifDir
 }
